@@ -30,7 +30,10 @@ func (ex *Exec) blobEq(a, b *Blob) *Term {
 			return ex.tf.False
 		}
 		pa, pb := a.Pack, b.Pack
-		if pa.abi != pb.abi || pa.method != pb.method || len(pa.args) != len(pb.args) || pa.skip != pb.skip {
+		if pa.abi != pb.abi || len(pa.args) != len(pb.args) || pa.skip != pb.skip {
+			return ex.tf.False
+		}
+		if pa.skip < 4 && pa.method != pb.method { // the method name only feeds the 4-byte selector
 			return ex.tf.False
 		}
 		cs := []*Term{}
@@ -250,7 +253,11 @@ func (ex *Exec) blobKey(b *Blob) string {
 	}
 	switch {
 	case b.Pack != nil:
-		fmt.Fprintf(&sb, "pack:%s:%s:%d:", b.Pack.abi, b.Pack.method, b.Pack.skip)
+		m := b.Pack.method
+		if b.Pack.skip >= 4 {
+			m = ""
+		}
+		fmt.Fprintf(&sb, "pack:%s:%s:%d:", b.Pack.abi, m, b.Pack.skip)
 		for _, a := range b.Pack.args {
 			walk(a, 0)
 		}
